@@ -265,7 +265,7 @@ func (wr *worldRunner) runCase(prop string, p profile, r *rng.R, stats map[strin
 			pkt, info := g.genPacket()
 			if dusted {
 				for try := 0; try < 3000 && !(info.shape == "valid" && info.spec != nil && pkt.ICS != nil && !info.spec.swap && info.denom == sim.USDC && info.expectOK &&
-					!info.spec.fwd.gasHook); try++ {
+					!info.spec.fwd.gasHook && len(info.spec.fwd.pass) == 0); try++ {
 					pkt, info = g.genPacket()
 				}
 				info.shape += "/after-a-send-to-the-dust-collector"
@@ -308,7 +308,7 @@ func (wr *worldRunner) runCase(prop string, p profile, r *rng.R, stats map[strin
 				for _, igp := range wr.w.S.IGPs {
 					if igp.Denom != sim.USDC && info.spec != nil {
 						f := &info.spec.fwd
-						f.hook, f.gasHook, f.gas = []byte(igp.ID), true, big.NewInt(5)
+						f.hook, f.gasHook, f.gas, f.pass = []byte(igp.ID), true, big.NewInt(5), nil
 						f.feeDenom, f.feeAmt = igp.Denom, igp.Quote(f.gas)
 						info.shape += "/gas-hook-paid-from-prior-balance"
 						info.expectOK = false
